@@ -46,6 +46,36 @@ def _instrument_unpacker():
         return
     orig_feed, orig_iter, orig_reset = U.feed, U.__iter__, U.reset
 
+    def counted(u, fn):
+        """run one frame-yielding call; count the frame at the OUTERMOST such call only (pop inside unpack inside
+        __next__ inside a generator's __next__ is one frame)"""
+        d = u.__dict__
+        depth = d.get('_verif_depth', 0)
+        d['_verif_depth'] = depth + 1
+        try:
+            item = fn()
+        finally:
+            d['_verif_depth'] = depth
+        if depth == 0:
+            try:
+                d['_verif_consumed'] = d.get('_verif_consumed', 0) + 5 + len(item[1])
+            except Exception:
+                pass
+        return item
+
+    def wrap(name):
+        orig = U.__dict__.get(name)
+        if orig is None or not callable(orig):
+            return
+
+        def method(self, *a, **k):
+            return counted(self, lambda: orig(self, *a, **k))
+        method.__name__ = name
+        setattr(U, name, method)
+
+    for name in ('__next__', 'next', 'unpack', 'pop'):
+        wrap(name)
+
     class _Counting(object):
         def __init__(self, u, it):
             self.u, self.it = u, it
@@ -54,12 +84,7 @@ def _instrument_unpacker():
             return self
 
         def __next__(self):
-            item = next(self.it)
-            try:
-                self.u.__dict__['_verif_consumed'] = self.u.__dict__.get('_verif_consumed', 0) + 5 + len(item[1])
-            except Exception:
-                pass
-            return item
+            return counted(self.u, lambda: next(self.it))
 
     def feed(self, data):
         self.__dict__['_verif_fed'] = self.__dict__.get('_verif_fed', 0) + len(data)
@@ -68,17 +93,7 @@ def _instrument_unpacker():
     def __iter__(self):
         it = orig_iter(self)
         if it is self:
-            # the class is its own iterator: step it through the class's own __next__
-            nxt = type(self).__next__
-            outer = self
-
-            class _Self(object):
-                def __iter__(s):
-                    return s
-
-                def __next__(s):
-                    return nxt(outer)
-            it = _Self()
+            return self         # stepped through the (wrapped) __next__ of the class
         return _Counting(self, it)
 
     def reset(self):
